@@ -95,6 +95,7 @@ class NamePart(object):
             self.format_char = ''
             self.abbreviate = False
         else:
+            format_chars = format_chars.lower()
             l = len(format_chars)
             if l == 1:
                 self.abbreviate = True
